@@ -81,7 +81,10 @@ func runMake(ctx context.Context, opt makeOptions, args []string) error {
 		}
 	}
 	if opt.printStats {
-		return printJSON(stderr, stats) // write to stderr since stdout could be used for index data
+		// write to stderr since stdout could be used for index data
+		if err := printJSON(stderr, stats); err != nil {
+			return err
+		}
 	}
 	return storeCaibxFile(index, indexFile, opt.cmdStoreOptions)
 }
